@@ -412,16 +412,45 @@ theorem requoter_ne_nil (e : Env) (s : Str) (hs : PyStr s) (hx : ∃ c ∈ s, is
 
 end EagerLemmas
 
+/-- `(REQUOTER(username) or None)`: the user `encode_url` caches (and writes into the stored netloc)
+    since commit 2fdb38c — a user that requotes to "" is no user -/
+def cachedUser (e : Env) (u : Option Str) : Option Str :=
+  (requoteOpt e u).bind (fun s => if s.isEmpty then none else some s)
+
 /-- the guard on the authority of the INPUT as `split_netloc` cuts it:
-    * the user, if any, is a Python string that does not requote to "" (i.e. it is not made of lone
-      surrogates only, see `requoter_ne_nil`);
+    * the user, if any, is a Python string (nothing else: since commit 2fdb38c a user that requotes to ""
+      — one made of lone surrogates only — is cached as `None`, which is what the twin reads; the guard
+      used to ask for `q e Gen.REQUOTER s ≠ []` here);
     * the host, if any, satisfies `GoodHost`;
-    * with an EMPTY host there is a user, a password or a port (otherwise the stored netloc is ""). -/
+    * with an EMPTY host there is a user THAT IS WRITTEN (it does not requote to ""), a password or a port
+      (otherwise the stored netloc is "").  The old guard asked for the same thing in this case, since it
+      asked every user not to requote to "". -/
 def GoodNp (e : Env) (np : NetlocParts) : Prop :=
+  (∀ s, np.user = some s → PyStr s) ∧
+  (match np.host with
+   | none => (∃ s, np.user = some s ∧ q e Gen.REQUOTER s ≠ []) ∨ np.password ≠ none ∨ np.port ≠ none
+   | some h0 => GoodHost e.o h0)
+
+/-- the guard as it was before commit 2fdb38c (kept: it implies the new one, see `goodNp_of_old`) -/
+def GoodNpOld (e : Env) (np : NetlocParts) : Prop :=
   (∀ s, np.user = some s → PyStr s ∧ q e Gen.REQUOTER s ≠ []) ∧
   (match np.host with
    | none => np.user ≠ none ∨ np.password ≠ none ∨ np.port ≠ none
    | some h0 => GoodHost e.o h0)
+
+theorem goodNp_of_old {e : Env} {np : NetlocParts} (h : GoodNpOld e np) : GoodNp e np := by
+  obtain ⟨hu, hh⟩ := h
+  refine ⟨fun s hs => (hu s hs).1, ?_⟩
+  cases hnh : np.host with
+  | some h0 => rw [hnh] at hh; exact hh
+  | none =>
+    rw [hnh] at hh
+    rcases hh with h | h | h
+    · cases hus : np.user with
+      | none => exact absurd hus h
+      | some x => exact Or.inl ⟨x, rfl, (hu x hus).2⟩
+    · exact Or.inr (Or.inl h)
+    · exact Or.inr (Or.inr h)
 
 /-- the guard of `C09_eager_eq_lazy`, on the split authority of the input string -/
 def GoodAuthority (e : Env) (s : Str) : Prop :=
@@ -449,7 +478,7 @@ def eagerOut (e : Env) (np : NetlocParts) (host : Str) : R (Str × Option NetPre
       | some pt => host ++ [58] ++ natToStr pt
     pure (netloc, some { rawHost := some rawHost, explicitPort := np.port, rawUser := none, rawPassword := none })
   else
-    let ru := requoteOpt e np.user
+    let ru := (requoteOpt e np.user).bind (fun s => if s.isEmpty then none else some s)
     let rp := requoteOpt e np.password
     let netloc := makeNetloc (q e Gen.QUOTER) ru rp (some host) np.port false
     pure (netloc, some { rawHost := some rawHost, explicitPort := np.port, rawUser := ru, rawPassword := rp })
@@ -547,9 +576,9 @@ theorem authSplit_eq (o : Oracles) (n : Str) (hne : n ≠ []) : authSplit o n = 
 /-- both branches of the cache fill, uniformly -/
 theorem eagerOut_eq (e : Env) (np : NetlocParts) (host : Str) :
     eagerOut e np host = .ok
-      (makeNetloc (q e Gen.QUOTER) (requoteOpt e np.user) (requoteOpt e np.password) (some host) np.port false,
+      (makeNetloc (q e Gen.QUOTER) (cachedUser e np.user) (requoteOpt e np.password) (some host) np.port false,
        some { rawHost := some (unbracket host), explicitPort := np.port,
-              rawUser := requoteOpt e np.user, rawPassword := requoteOpt e np.password }) := by
+              rawUser := cachedUser e np.user, rawPassword := requoteOpt e np.password }) := by
   unfold eagerOut unbracket
   dsimp only
   split
@@ -576,6 +605,67 @@ theorem userOK_requote (e : Env) (u : Option Str) (hne : u ≠ some [])
     simp only [requoteOpt, Option.map_some, hs, Bool.false_eq_true, ↓reduceIte, Option.some.injEq] at ht
     subst ht
     exact ⟨(hu s rfl).2, (requoter_no_delims e s (hu s rfl).1).1⟩
+
+/-- what the filter keeps -/
+theorem cachedUser_some {e : Env} {u : Option Str} {t : Str} :
+    cachedUser e u = some t ↔ ∃ s, u = some s ∧ s ≠ [] ∧ t = q e Gen.REQUOTER s ∧ t ≠ [] := by
+  unfold cachedUser requoteOpt
+  cases u with
+  | none => simp
+  | some s =>
+    cases s with
+    | nil => simp
+    | cons c r =>
+      simp only [Option.map_some, List.isEmpty_cons, Bool.false_eq_true, ↓reduceIte, Option.bind_some,
+        Option.some.injEq, ne_eq, reduceCtorEq, not_false_eq_true, true_and, exists_eq_left']
+      cases hq : q e Gen.REQUOTER (c :: r) with
+      | nil =>
+        simp only [List.isEmpty_nil, ↓reduceIte, reduceCtorEq, false_iff, not_and, Decidable.not_not]
+        intro h; exact h
+      | cons d r' =>
+        simp only [List.isEmpty_cons, Bool.false_eq_true, ↓reduceIte, Option.some.injEq]
+        constructor
+        · intro h; subst h; exact ⟨rfl, by simp⟩
+        · intro h; exact h.1.symm
+
+theorem cachedUser_none {e : Env} {u : Option Str} :
+    cachedUser e u = none ↔ u = none ∨ u = some [] ∨ ∃ s, u = some s ∧ q e Gen.REQUOTER s = [] := by
+  unfold cachedUser requoteOpt
+  cases u with
+  | none => simp
+  | some s =>
+    cases s with
+    | nil => simp
+    | cons c r =>
+      cases hq : q e Gen.REQUOTER (c :: r) <;> simp [hq]
+
+/-- the cached user is never "" -/
+theorem cachedUser_ne_nil (e : Env) (u : Option Str) : cachedUser e u ≠ some [] := by
+  intro h
+  obtain ⟨_, _, _, _, h'⟩ := cachedUser_some.mp h
+  exact h' rfl
+
+/-- where the requoted user is not "", the filter changes nothing -/
+theorem cachedUser_eq_requoteOpt (e : Env) (u : Option Str) (hne : u ≠ some [])
+    (hu : ∀ s, u = some s → q e Gen.REQUOTER s ≠ []) : cachedUser e u = requoteOpt e u := by
+  unfold cachedUser requoteOpt
+  cases u with
+  | none => rfl
+  | some s =>
+    cases s with
+    | nil => exact absurd rfl hne
+    | cons c r =>
+      have := hu _ rfl
+      cases hq : q e Gen.REQUOTER (c :: r) with
+      | nil => exact absurd hq this
+      | cons d r' => simp [hq]
+
+/-- the cached user can always be written into a netloc and read back — no condition on the user
+    beyond being a Python string (the filter of commit 2fdb38c takes care of "") -/
+theorem userOK_cached (e : Env) (u : Option Str) (hu : ∀ s, u = some s → PyStr s) : UserOK (cachedUser e u) := by
+  intro t ht
+  obtain ⟨s, hs, _, rfl, hne⟩ := cachedUser_some.mp ht
+  exact ⟨hne, (requoter_no_delims e s (hu s hs)).1⟩
 
 theorem lazyNet_of_split (e : Env) (u : Url) (p : NetPre) (hopt : Option Str)
     (hh : p.rawHost = match hopt with
@@ -627,7 +717,7 @@ theorem authBlock_lazy (e : Env) (pt : Parts) (netloc : Str) (p : NetPre)
     obtain ⟨hgu, hgh⟩ := hg np hsp
     obtain ⟨hune, hhost⟩ := splitNetloc_shape _ _ _ hsp
     have hport := fun p => NetlocLemmas.splitNetloc_port_range e.o _ np p hsp
-    have hUser : UserOK (requoteOpt e np.user) := userOK_requote e np.user hune hgu
+    have hUser : UserOK (cachedUser e np.user) := userOK_cached e np.user hgu
     cases hho : hostOr pt.scheme np.host with
     | error err => simp only [hho] at hb; cases hb
     | ok host0 =>
@@ -670,10 +760,12 @@ theorem authBlock_lazy (e : Env) (pt : Parts) (netloc : Str) (p : NetPre)
               have : StrTotal.rebracket false [] = [] := by simp [StrTotal.rebracket]
               rw [this]
               apply makeNetloc_nil_host_ne_nil _ _ _ _ hUser
-              rcases hgh with h | h | h
-              · left; cases hh : np.user with
-                | none => exact absurd hh h
-                | some x => simp [requoteOpt]
+              rcases hgh with ⟨x, hx, hq⟩ | h | h
+              · left
+                have hxne : x ≠ [] := fun h0 => hune (by rw [hx, h0])
+                have : cachedUser e np.user = some (q e Gen.REQUOTER x) :=
+                  cachedUser_some.mpr ⟨x, hx, hxne, rfl, hq⟩
+                rw [this]; simp
               · right; left; cases hh : np.password with
                 | none => exact absurd hh h
                 | some x => simp [requoteOpt]
